@@ -178,6 +178,20 @@ static void mk_aead(const Args &a) {
     if (sc == "aead128") ascon128_masked_aead_encrypt(out.p, &clen, mb.p, m.size(), adb.p, adb.n, nb.p, (const ascon_masked_key_128_t *)k);
     else if (sc == "aead128a") ascon128a_masked_aead_encrypt(out.p, &clen, mb.p, m.size(), adb.p, adb.n, nb.p, (const ascon_masked_key_128_t *)k);
     else ascon80pq_masked_aead_encrypt(out.p, &clen, mb.p, m.size(), adb.p, adb.n, nb.p, (const ascon_masked_key_160_t *)k);
-    Ev ev("mk.aead"); ev.s("scheme", sc).n("obj", id).b("n", n).b("ad", ad).b("m", m).n("clen", (long long)clen).b("out", out.get(m.size() + 16)).n("guard", out.guards_ok()); ev.emit();
+    // the key argument is const: decrypt the packet, then a forged one (last tag byte flipped), with the same key
+    // object and require the object to be bit-identical after all three calls
+    size_t ksz = sc == "aead80pq" ? sizeof(ascon_masked_key_160_t) : sizeof(ascon_masked_key_128_t);
+    bytes_t kraw((uint8_t *)k, (uint8_t *)k + ksz);
+    bytes_t ct = out.get(m.size() + 16); OutBuf pt(m.size()), pt2(m.size()); size_t ml = 0, ml2 = 0; int r1, r2;
+    InBuf cb(ct); bytes_t bad = ct; bad[bad.size() - 1] ^= 0x40; InBuf bb(bad);
+    if (sc == "aead128") { r1 = ascon128_masked_aead_decrypt(pt.p, &ml, cb.p, cb.n, adb.p, adb.n, nb.p, (const ascon_masked_key_128_t *)k);
+                           r2 = ascon128_masked_aead_decrypt(pt2.p, &ml2, bb.p, bb.n, adb.p, adb.n, nb.p, (const ascon_masked_key_128_t *)k); }
+    else if (sc == "aead128a") { r1 = ascon128a_masked_aead_decrypt(pt.p, &ml, cb.p, cb.n, adb.p, adb.n, nb.p, (const ascon_masked_key_128_t *)k);
+                                 r2 = ascon128a_masked_aead_decrypt(pt2.p, &ml2, bb.p, bb.n, adb.p, adb.n, nb.p, (const ascon_masked_key_128_t *)k); }
+    else { r1 = ascon80pq_masked_aead_decrypt(pt.p, &ml, cb.p, cb.n, adb.p, adb.n, nb.p, (const ascon_masked_key_160_t *)k);
+           r2 = ascon80pq_masked_aead_decrypt(pt2.p, &ml2, bb.p, bb.n, adb.p, adb.n, nb.p, (const ascon_masked_key_160_t *)k); }
+    bool same = memcmp(&kraw[0], k, ksz) == 0;
+    Ev ev("mk.aead"); ev.s("scheme", sc).n("obj", id).b("n", n).b("ad", ad).b("m", m).n("clen", (long long)clen).b("out", ct).n("guard", out.guards_ok() && pt.guards_ok() && pt2.guards_ok())
+        .n("dec", r1 < 0 ? -1 : r1).b("pt", pt.get(m.size())).n("forged", r2 < 0 ? -1 : r2).n("key_same", same ? 1 : 0); ev.emit();
 }
 void reg_masked() { reg("mk.aead", mk_aead); reg("mw.op", mw_op); reg("mw.free", mw_free); reg("ms.op", ms_op); reg("mk.op", mk_op); }
